@@ -124,6 +124,29 @@ Proof.
   repeat split; reflexivity.
 Qed.
 
+(* entries that cannot be opened are invisible too, together with any other junk *)
+Theorem unreadable_invisible_modes d oc c names good junk :
+  Permutation names (good ++ junk) ->
+  (forall j, In j junk -> oc j = None \/
+     (is_got (d_count d (content_of oc j)) = false /\ is_got (d_summary d (content_of oc j)) = false /\ is_got (d_full d (content_of oc j)) = false)) ->
+  mode_count_o d c oc names = mode_count_o d c oc good /\
+  mode_list_o d c oc names = mode_list_o d c oc good /\
+  mode_all_o d c oc names = mode_all_o d c oc good.
+Proof.
+  intros P Hj. unfold mode_count_o, mode_list_o, mode_all_o.
+  apply (junk_invisible_modes d (content_of oc) c (filter (readable oc) names) (filter (readable oc) good) (filter (readable oc) junk)).
+  - rewrite <- filter_app. apply filter_perm. exact P.
+  - intros j Hin. apply filter_In in Hin. destruct Hin as [Hin Hr]. destruct (Hj j Hin) as [Hn|H]; [|exact H].
+    unfold readable in Hr. rewrite Hn in Hr. discriminate.
+Qed.
+
+(* a directory holding, besides its PELs, only entries that cannot be opened: the output is that of the PELs alone *)
+Corollary only_unreadable_added d oc c good gone : (forall j, In j gone -> oc j = None) ->
+  mode_count_o d c oc (good ++ gone) = mode_count_o d c oc good /\
+  mode_list_o d c oc (good ++ gone) = mode_list_o d c oc good /\
+  mode_all_o d c oc (good ++ gone) = mode_all_o d c oc good.
+Proof. intros H. apply unreadable_invisible_modes with (junk := gone); [apply Permutation_refl|]. intros j Hj. left. apply H. exact Hj. Qed.
+
 (* ---- C11: effects ---- *)
 Theorem delete_removes_at_most_one i walk regular json_ok ext :
   effects (ADelete i) walk regular json_ok ext = [] \/
